@@ -335,12 +335,24 @@ func updateMpp(ctx *invoiceUpdateCtx, inv *Invoice) (*InvoiceUpdateDesc,
 		var failRes *HtlcFailResolution
 		htlcPreimages, failRes = reconstructAMPPreimages(ctx, htlcSet)
 		if failRes != nil {
-			update.UpdateType = CancelInvoiceUpdate
-			update.State = &InvoiceStateUpdateDesc{
-				NewState: ContractCanceled,
-				SetID:    setID,
+			// Only the set that failed reconstruction is canceled.
+			// The invoice stays open: it may be reusable, and the
+			// htlcs of other sets that are currently held are not
+			// loaded for this update, so they would be left
+			// accepted on a canceled invoice where the mpp timeout
+			// can no longer release them.
+			cancelHtlcs := make(
+				map[CircuitKey]struct{}, len(htlcSet),
+			)
+			for key := range htlcSet {
+				cancelHtlcs[key] = struct{}{}
 			}
-			return &update, failRes, nil
+
+			return &InvoiceUpdateDesc{
+				UpdateType:  CancelHTLCsUpdate,
+				CancelHtlcs: cancelHtlcs,
+				SetID:       (*SetID)(setID),
+			}, failRes, nil
 		}
 
 		// The preimage for _this_ HTLC will be the one with context's
